@@ -10,8 +10,12 @@ package main
 // event that issued the failed write) and never report success.
 //
 // Correspondence: what the implementation did (outcome, number of calls that
-// reached the destination / source, kinds and sizes of the calls without
-// failure) is written as CE.Model.IoFail cases and recomputed by the model.
+// reached the destination / source, and for the calls without failure their
+// kinds, their sizes and the library function that issued them, read off the
+// call stack) is written as CE.Model.IoFail cases and recomputed by the model.
+// A call on the destination that is not issued by one of the write sites of
+// the shape is reported (C29/harness/unknown-write-site) and never agrees
+// with the model.
 // The error handling at every I/O call site ("shape") is extracted from the
 // sources with go/ast and compared with the shape the theorems are about.
 
@@ -881,9 +885,39 @@ func c29Shape() (map[string]string, []string) {
 	// completeness: every call on an io.Reader / io.Writer / io.StringWriter / bufio value or of an io.* function in
 	// cbe, cte (hand-written part) and ce must be one of the sites above
 	notes := []string{}
+	ioMethods := map[string]bool{"Read": true, "Write": true, "WriteString": true, "Peek": true, "ReadByte": true, "ReadRune": true, "WriteByte": true,
+		"WriteRune": true, "ReadFrom": true, "WriteTo": true, "ReadString": true, "ReadBytes": true, "Discard": true, "Flush": true}
 	for _, dir := range []string{"cbe", "cte", "ce"} {
 		paths, _ := filepath.Glob(filepath.Join(root, dir, "*.go"))
 		sort.Strings(paths)
+		// names of the struct fields of the package that hold an io / bufio value: a call of an I/O method on such a
+		// field is an I/O call also when it is reached through another struct (x.writer.writer.Write)
+		dirIOFields := map[string]bool{}
+		for _, p := range paths {
+			if strings.HasSuffix(p, "_test.go") {
+				continue
+			}
+			f := src.file(p)
+			if f == nil {
+				continue
+			}
+			ast.Inspect(f, func(n ast.Node) bool {
+				stt, ok := n.(*ast.StructType)
+				if !ok {
+					return true
+				}
+				for _, fl := range stt.Fields.List {
+					if se, ok := fl.Type.(*ast.SelectorExpr); ok {
+						if x, ok := se.X.(*ast.Ident); ok && (x.Name == "io" || x.Name == "bufio") {
+							for _, n := range fl.Names {
+								dirIOFields[n.Name] = true
+							}
+						}
+					}
+				}
+				return true
+			})
+		}
 		for _, p := range paths {
 			if strings.HasSuffix(p, "_test.go") {
 				continue
@@ -950,6 +984,8 @@ func c29Shape() (map[string]string, []string) {
 						}
 					case *ast.SelectorExpr:
 						if ioFields[recv][x.Sel.Name] {
+							isIO = true
+						} else if _, deeper := x.X.(*ast.SelectorExpr); deeper && dirIOFields[x.Sel.Name] && ioMethods[se.Sel.Name] {
 							isIO = true
 						}
 					}
@@ -1183,19 +1219,18 @@ func c29ParseLongRef(s string) (kind string, n int, ok bool) {
 	return p[0], n, err == nil && n >= 0 && n <= 1<<20
 }
 
-// the lengths one kind is run at: thorough = the whole ladder up to 10000 (the plain string: all of it); quick =
+// the lengths one kind is run at: thorough = eight fixed lengths from 31 to 4097 and two that move along the ladder
+// with the seed and the kind (the plain string: the whole ladder); quick =
 // just above the fresh scratch buffer and one more (at most 1100 bytes) that moves along the ladder with the seed
 // and the kind (the plain string: eight of them, from 32 bytes up to beyond 64 KiB)
 func (c *Ctx) c29LongLengths(kindIdx int, full bool) []int {
 	ladder := c29LongLadder()
 	if c.Thorough() {
-		out := []int{}
-		for _, n := range ladder {
-			if full || n <= 10000 {
-				out = append(out, n)
-			}
+		if full {
+			return ladder
 		}
-		return out
+		rot := int((c.Seed%1000+1000)%1000)*7 + kindIdx*5
+		return []int{31, 32, 33, 64, 65, 129, 1025, 4097, ladder[rot%len(ladder)], ladder[(rot+len(ladder)/2)%len(ladder)]}
 	}
 	if full {
 		return []int{32, 33, 65, 100, 200, 513, 4097, 70001}
@@ -1653,7 +1688,7 @@ func (c *Ctx) c29WriteJob(cf *caseFile, j c29WJob) {
 		}
 	}
 	one(none, false)
-	// a single transient failure at every call (beyond 300 calls: the first and last 100 and 100 others)
+	// a single transient failure at every call (beyond 300 / thorough 1200 calls: the first and the last third of that many and as many others)
 	for _, k := range c.c29CallIndices(ncalls) {
 		one(c29WSched{calls: map[int]bool{k: true}, limit: -1}, false)
 	}
@@ -1661,9 +1696,9 @@ func (c *Ctx) c29WriteJob(cf *caseFile, j c29WJob) {
 	step := 1
 	if !c.Thorough() && nbytes > 24 {
 		step = nbytes/24 + 1
-		if j.in.long != 0 {
-			step = nbytes/8 + 1 // the directed long payloads are about the calls; the offsets inside them are sampled thinly
-		}
+	}
+	if j.in.long != 0 && nbytes > c.Pick(8, 64) {
+		step = nbytes/c.Pick(8, 64) + 1 // the directed long payloads are about the calls; the offsets inside them are sampled
 	}
 	for b := 0; b < nbytes; b += step {
 		one(c29WSched{calls: map[int]bool{}, limit: b}, false)
@@ -1717,18 +1752,19 @@ func (c *Ctx) c29WriteJob(cf *caseFile, j c29WJob) {
 
 func (c *Ctx) c29CallIndices(ncalls int) []int {
 	out := []int{}
-	if ncalls <= 300 {
+	max := c.Pick(300, 1200)
+	if ncalls <= max {
 		for k := 0; k < ncalls; k++ {
 			out = append(out, k)
 		}
 		return out
 	}
 	pick := map[int]bool{}
-	for k := 0; k < 100; k++ {
+	for k := 0; k < max/3; k++ {
 		pick[k], pick[ncalls-1-k] = true, true
 	}
-	for len(pick) < 300 {
-		pick[100+c.Rng.Intn(ncalls-200)] = true
+	for len(pick) < max {
+		pick[max/3+c.Rng.Intn(ncalls-2*(max/3))] = true
 	}
 	for k := range pick {
 		out = append(out, k)
@@ -2287,7 +2323,7 @@ func replayC29(r *Replay) (bool, string) {
 				unknown++
 			}
 		}
-		if unknown > 0 {
+		if okv && unknown > 0 {
 			return false, fmt.Sprintf("%s %s: %d of %d calls on the destination are issued from a place that is none of the write sites whose error handling is known -> %s", j.format, j.entry, unknown, len(w.calls), out)
 		}
 		return okv, fmt.Sprintf("%s %s: destination calls=%d failed=%v -> %s (required when the destination failed: %s)", j.format, j.entry, len(w.calls), w.failed, out, expect)
